@@ -25,8 +25,7 @@
    but [pick s \in s] is assumed about it in the theorems.
 
    Python assertions that only re-check invariants are not modelled; the
-   places where the code would fail (pick from an empty set, NameError when
-   the top-level traversal is pruned) return None. *)
+   places where the code would fail (pick from an empty set) return None. *)
 From Coq Require Import List ZArith Bool Lia Arith.
 Import ListNotations.
 From Omega Require Import L5Cover.Boxes.
@@ -227,8 +226,25 @@ Fixpoint unfloors (C Y : list box) : option (list box) :=
       end
   end.
 
-(* cover.minimize on the covering problem (X, Y) *)
+(* cover.minimize on the covering problem (X, Y), AS REPAIRED by
+   fixes/F13.patch: when the top-level traversal is pruned (the greedy upper
+   bound already equals the lower bound) the greedy cover is used.  The
+   second call of _some_cover returns what the first returned (pick is a
+   function of the set). *)
 Definition minimize_xy (X Y : list box) : option (list box) :=
+  match some_cover (S (length X)) X Y with
+  | None => None
+  | Some c0 =>
+      match traverse (S (length Y)) X Y 0 (length c0) with
+      | Some (Some C, _, _) => unfloors C Y
+      | Some (None, _, _) => unfloors c0 Y
+      | None => None
+      end
+  end.
+
+(* the unrepaired code: in the pruned case line 85 of cover.py refers to the
+   undefined name p_to_q and raises NameError (finding F13) *)
+Definition minimize_xy_unrepaired (X Y : list box) : option (list box) :=
   match some_cover (S (length X)) X Y with
   | None => None
   | Some c0 =>
@@ -243,6 +259,10 @@ End Alg.
 Definition minimize (rs : ranges) (pick : list box -> option box)
   (f care : point -> bool) : option (list box) :=
   minimize_xy rs pick (embed rs f) (primes rs f care).
+
+Definition minimize_unrepaired (rs : ranges) (pick : list box -> option box)
+  (f care : point -> bool) : option (list box) :=
+  minimize_xy_unrepaired rs pick (embed rs f) (primes rs f care).
 
 Definition cyclic_core_fc (rs : ranges) (f care : point -> bool) :=
   cyclic_core rs (embed rs f) (primes rs f care).
